@@ -40,6 +40,7 @@ fn opname(op: &Op) -> String {
         Op::Send(_) => "send".into(),
         Op::TrySend(_) => "try_send".into(),
         Op::SendBatch(_) => "send_batch".into(),
+        Op::TrySendBatch(_) => "try_send_batch".into(),
         Op::SendAsync(_) => "send_async".into(),
         Op::Recv => "recv".into(),
         Op::TryRecv => "try_recv".into(),
@@ -103,7 +104,13 @@ pub fn check_channel(sc: &ChanScen, _shape: &str) {
                 }
                 (vec![*id], vec![], vec![*id], false, false)
             }
-            (Op::SendBatch(ids), Res::BatchOk(n)) => {
+            (Op::TrySendBatch(ids), Res::TryBatchErr { sent, unsent, full }) => {
+                if *sent > ids.len() || ids[*sent..] != unsent[..] {
+                    oracle_fail("C01", "batch_handback", "try_send_batch", &format!("input {:?} sent {} unsent {:?}", ids, sent, unsent));
+                }
+                (ids.clone(), ids[..*sent].to_vec(), unsent.clone(), !*full, *full)
+            }
+            (Op::SendBatch(ids) | Op::TrySendBatch(ids), Res::BatchOk(n)) => {
                 if *n != ids.len() {
                     oracle_fail("C01", "batch_count", "send_batch", &format!("Ok({}) for a batch of {}", n, ids.len()));
                 }
@@ -239,7 +246,7 @@ pub fn check_channel(sc: &ChanScen, _shape: &str) {
             // to this try_send, so the (Acquire) load of the consumer position may still read the
             // older value under the C11 model loom explores — a late Full there is not a defect.
             for s in sends.iter().filter(|s| s.full) {
-                let others: usize = sends.iter().filter(|x| !std::ptr::eq(x.o, s.o) && x.o.call < s.o.ret).map(|x| x.ids.len()).sum();
+                let others: usize = sends.iter().filter(|x| !std::ptr::eq(x.o, s.o) && x.o.call < s.o.ret).map(|x| x.ids.len()).sum::<usize>() + s.ok.len();
                 let taken: usize = recvs.iter().filter(|r| r.o.ret < s.o.call && r.o.t == s.o.t).map(|r| r.vals.len()).sum();
                 if others < taken + cap {
                     oracle_fail(
